@@ -844,6 +844,10 @@ def _em_conversion(orig_units, conv_data, to_units=None, unit_system=None):
     conv_unit, canonical_unit, scale = conv_data
     if conv_unit is None:
         conv_unit = canonical_unit
+        if unit_system is not None and conv_unit.dimensions == orig_units.dimensions:
+            # no hop between CGS and MKS: convert to the unit the unit system
+            # has for this dimension now (conv_data may come from a cache)
+            conv_unit = unit_system[conv_unit.dimensions]
     new_expr = scale * canonical_unit.expr
     if unit_system is not None:
         # we don't know the to_units, so we get it directly from the
@@ -883,7 +887,7 @@ def _check_em_conversion(unit, to_unit=None, unit_system=None, registry=None):
             cmks_in_unit_system = unit_system.units_map[current_mks]
             cmks_in_unit_system = cmks_in_unit_system is not None
             if cmks_in_unit and cmks_in_unit_system:
-                em_map = (unit_system[unit.dimensions], unit, 1.0)
+                em_map = (None, unit, 1.0)
             else:
                 em_map = (None, em_unit, em_info[2])
         elif to_unit.dimensions == em_unit.dimensions:
